@@ -63,14 +63,18 @@ class _SSHAuthorizedKeyEntry(OptionsParser):
     def _import_key_or_cert(self, line: str) -> None:
         """Import key or certificate in this entry"""
 
+        # The key may be followed by a comment in any encoding
+        key_data = line.encode('utf-8')
+
         try:
-            self.key = import_public_key(line)
+            self.key = import_public_key(key_data)
             return
         except KeyImportError:
             pass
 
         try:
-            self.cert = cast(SSHX509Certificate, import_certificate(line))
+            self.cert = cast(SSHX509Certificate,
+                             import_certificate(key_data))
 
             if ('cert-authority' in self.options and
                     self.cert.subject != self.cert.issuer):
